@@ -300,6 +300,11 @@ def export_slice(slize: Slice) -> vckt.Slice:
     if slize.step != 1:
         msg = f"Export error: {slize} has non-unit step"
         raise RuntimeError(msg)
+    if not (0 <= slize.bot < slize.top <= slize.parent.width):
+        # A `Slice` resolves its index once, against the width its parent had then. If the parent has been given
+        # another width since, the bits it names may no longer be there.
+        msg = f"Export error: {slize} selects bits [{slize.bot}, {slize.top}) outside of {slize.parent} of width {slize.parent.width}"
+        raise RuntimeError(msg)
 
     # Move to HDL-style indexing, with inclusive `top` index.
     return vckt.Slice(signal=slize.parent.name, top=slize.top - 1, bot=slize.bot)
